@@ -2,6 +2,7 @@ package legacy
 
 import (
 	"encoding/json"
+	"errors"
 	"fmt"
 	"regexp"
 	"sort"
@@ -540,6 +541,10 @@ func migrateRuleSet(lang i18n.Language, r RuleSet, validDests map[uuids.UUID]boo
 
 	switch r.Type {
 	case "subflow":
+		if config.Flow == nil {
+			return nil, "", nil, errors.New("subflow ruleset config must have a flow")
+		}
+
 		flowRef := assets.NewFlowReference(assets.FlowUUID(config.Flow.UUID), config.Flow.Name)
 
 		newActions = []migratedAction{
@@ -592,6 +597,10 @@ func migrateRuleSet(lang i18n.Language, r RuleSet, validDests map[uuids.UUID]boo
 
 	case "form_field":
 		operand, _ := expressions.MigrateTemplate(r.Operand, nil)
+		if operand == "" {
+			return nil, "", nil, errors.New("form_field ruleset must have an operand")
+		}
+
 		operand = fmt.Sprintf("@(field(%s, %d, \"%s\"))", operand[1:], config.FieldIndex, config.FieldDelimiter)
 		router = newSwitchRouter(nil, resultName, categories, operand, cases, defaultCategory)
 
